@@ -547,6 +547,9 @@ func runC12(r *core.Run) {
 		r.NTCount(nt) // seeded draws; collisions among ~1e5 whites^3 are negligible but not excluded
 	})
 	if r.Variant == "" {
+		// the whole workload once more in the GOARCH=386 build of this monitor (see ./check)
+		r.RunVariantChild("arch386@16", 30*time.Minute, false)
+		r.Obs("arch386_child", "run")
 		for _, v := range append([]string{"warm@2"}, burstVariants...) {
 			r.RunVariantChild(v, 5*time.Minute, false)
 		}
@@ -560,6 +563,9 @@ func runC12(r *core.Run) {
 		side := 8192
 		if r.Thorough() {
 			side = 32768
+		}
+		if strings.Contains(r.Variant, "arch386") {
+			side = 2048 // the 32-bit child repeats the stage at 2^22 pairs (float64 arithmetic is several times slower there)
 		}
 		total := side * side
 		d65 := ciexyz.Color{X: 0.95047, Y: 1, Z: 1.08883}
